@@ -31,25 +31,13 @@ mut("c01_fail_dead_only_depth1", "src/nfa/noncontiguous.rs",
                     continue;
                 }""",
     ["C01"], "failure links after a match state are only cut directly below the start state")
-mut("c01_iter_no_advance_after_empty", "src/automaton.rs",
-    "            self.input.set_start(self.input.start().checked_add(1).unwrap());\n            m = self.search()?;",
-    "            self.input.set_start(self.input.start().checked_add(1).unwrap());\n            m = self.search()?;\n            if m.is_empty() && self.input.start() < self.input.end() { self.input.set_start(self.input.start() + 1); }",
-    ["C01", "C02"], "iterator skips one extra byte after an empty match that followed a match")
 # ---- C02 / standard
-mut("c02_copy_matches_skipped_for_start_fail", "src/nfa/noncontiguous.rs",
-    "                self.nfa.states[t.next].fail = fail;\n                self.nfa.copy_matches(fail, t.next)?;",
-    "                self.nfa.states[t.next].fail = fail;\n                if self.nfa.states[fail].fail != fail { self.nfa.copy_matches(fail, t.next)?; }",
-    ["C02", "C03"], "match inheritance skipped for some failure targets")
 # ---- C03 overlapping
 mut("c03_overlapping_skips_index1", "src/automaton.rs",
     "                state.next_match_index = Some(1);\n                    state.mat = Some(m);",
     "                state.next_match_index = Some(2);\n                    state.mat = Some(m);",
     ["C03"], "overlapping search drops the second match of every match state")
 # ---- C04 representation
-mut("c04_sparse_limit_off_by_one", "src/nfa/contiguous.rs",
-    "let kind = if force_dense || old_len > State::MAX_SPARSE_TRANSITIONS {",
-    "let kind = if force_dense || old_len > State::MAX_SPARSE_TRANSITIONS + 1 {",
-    ["C04", "C16", "C20"], "a state with exactly 128 sparse transitions is written in the sparse format that holds 127")
 # ---- C05 prefilters
 mut("c05_rare_offset_min", "src/util/prefilter.rs",
     "cmp::max(self.set[byte as usize].max, off.max);",
@@ -88,10 +76,6 @@ mut("c07_sid_reset_on_refill", "src/automaton.rs",
     "                    self.buffer_pos = self.buf.min_buffer_len();",
     "                    self.buffer_pos = self.buf.min_buffer_len();\n                    self.sid = self.start;",
     ["C07", "C08"], "automaton state is reset at every buffer roll")
-mut("c08_preroll_chunk_too_long", "src/automaton.rs",
-    "            self.buf.buffer().len().saturating_sub(self.buf.min_buffer_len());\n        if self.buffer_reported_pos < end {",
-    "            self.buf.buffer().len().saturating_sub(self.buf.min_buffer_len() - 1);\n        if self.buffer_reported_pos < end {",
-    ["C08"], "pre-roll non-match chunk reports one byte that may still take part in a match")
 mut("c18_read_error_becomes_eof", "src/util/buffer.rs",
     "            let readlen = rdr.read(self.free_buffer())?;",
     "            let readlen = match rdr.read(self.free_buffer()) { Ok(n) => n, Err(e) if e.kind() == std::io::ErrorKind::Interrupted => 0, Err(e) => return Err(e) };",
@@ -129,10 +113,6 @@ mut("c13_iter_skips_start_kind_check", "src/ahocorasick.rs",
         Ok(FindIter(self.aut.try_find_iter(input)?))""",
     ["C13"], "try_find_iter no longer checks the start kind (NFAs then accept, DFA errors)")
 # ---- C14 earliest
-mut("c14_earliest_ignored_at_start_match", "src/automaton.rs",
-    "        mat = Some(get_match(aut, sid, 0, at));\n        if earliest {\n            return Ok(mat);\n        }",
-    "        mat = Some(get_match(aut, sid, 0, at));\n        if earliest && aut.match_kind().is_standard() {\n            return Ok(mat);\n        }",
-    ["C14"], "harmless-looking: earliest not honoured when the start state matches (leftmost) - allowed by C14 unless it overshoots")
 mut("c14_is_match_ignores_span_end", "src/ahocorasick.rs",
     "        self.try_find(input.into().earliest(true))",
     "        self.try_find({ let i: Input<'h> = input.into(); let e = i.haystack().len(); let s = i.start(); if s <= e { i.range(s..e) } else { i } }.earliest(true))",
@@ -152,6 +132,31 @@ mut("c20_min_len_ignores_empty", "src/nfa/noncontiguous.rs",
     "                core::cmp::min(self.nfa.min_pattern_len, pat.len());",
     "                core::cmp::min(self.nfa.min_pattern_len, core::cmp::max(1, pat.len()));",
     ["C20", "C13"], "min_pattern_len never reports 0")
+# ---- replacements for mutants that turned out to be equivalent
+mut("c01_iter_forgets_empty_match_end", "src/automaton.rs",
+    "        self.input.set_start(m.end());\n        self.last_match_end = Some(m.end());",
+    "        self.input.set_start(m.end());\n        if !m.is_empty() {\n            self.last_match_end = Some(m.end());\n        }",
+    ["C01", "C02"], "iterator only remembers the end of non-empty matches: an empty match is yielded again and again")
+mut("c02_duplicates_report_last_id", "src/nfa/noncontiguous.rs",
+    """        let new_match_link = self.alloc_match()?;
+        self.matches[new_match_link].pid = pid;
+        if link == StateID::ZERO {
+            self.states[sid].matches = new_match_link;
+        } else {
+            self.matches[link].link = new_match_link;
+        }
+        Ok(())""",
+    """        let new_match_link = self.alloc_match()?;
+        self.matches[new_match_link].pid = pid;
+        let _ = link;
+        self.matches[new_match_link].link = head;
+        self.states[sid].matches = new_match_link;
+        Ok(())""",
+    ["C02", "C03", "C01"], "add_match prepends: identical patterns are reported by the last supplied id")
+mut("c04_sparse_padding_zero", "src/nfa/contiguous.rs",
+    "            let repeat = chunk[len - 1];",
+    "            let repeat = 0;",
+    ["C04", "C16"], "contiguous NFA pads the last class chunk of a sparse state with class 0 instead of repeating the last class")
 # ---- C17 purity
 mut("c17_memo_last_start", "src/util/prefilter.rs",
     """#[derive(Clone, Debug)]
